@@ -203,7 +203,10 @@ def main(run):
         add("dumps", "CDumps %s %s" % (coq_str(s), coq_str(json.dumps(s))), ("dumps", s))
         add("strip", "CStrip %s %s" % (coq_str(s), coq_str(s.strip())), ("strip", s))
         add("splitlines", "CSplitlines %s %s" % (coq_str(s), coq_list([coq_str(x) for x in s.splitlines()])), ("splitlines", s))
-        add("split", "CSplit %s %s" % (coq_str(s), coq_list([coq_str(x) for x in DiffParser()._split(s)])), ("_split", s))
+        if hasattr(DiffParser, "_split"):
+            # (when the field splitter is gone the translator's pin reports it; the parse stream and the round-trip
+            # oracle below still exercise whatever splits the fields now)
+            add("split", "CSplit %s %s" % (coq_str(s), coq_list([coq_str(x) for x in DiffParser()._split(s)])), ("_split", s))
         add("cleanup", "CCleanup %s %s" % (coq_str(s), coq_str(cleanup_whitespace(s))), ("cleanup_whitespace", s))
     jsrc = [json.dumps(s) for s in strs[:4000]] + ['"' + s + '"' for s in strs[:4000]] + strs[:2500] + \
         ['null', ' null ', 'nul', 'nulls', '"\\ud83d\\ude00"', '"\\ud83d\\u0041"', '"\\ud83d"', '"\\uD83D\\uDE00"',
